@@ -810,3 +810,95 @@ func ruleConnEvents(c *Ctx, rule string) {
 }
 
 var _ = types.RecvOnly
+
+// ruleErrorPathEndSeesTheError (C20.1, newStream): after Begin has been emitted (i.e. once the End-emitting defer is
+// registered) every failing return yields the very variable the deferred block tests; a shadowed `err` makes the
+// deferred block see nil and the End event is never emitted.
+func ruleErrorPathEndSeesTheError(c *Ctx, rule string) {
+	p := c.p
+	ns := p.MustFn("goat.ClientConn.newStream")
+	var dfn *ssa.Function
+	var dins *ssa.Defer
+	allInstrs(ns, func(i ssa.Instruction) {
+		if d, ok := i.(*ssa.Defer); ok {
+			if mc, ok := d.Call.Value.(*ssa.MakeClosure); ok {
+				if fn := mc.Fn.(*ssa.Function); len(p.statsEventCalls(fn, "End", false)) > 0 {
+					dfn, dins = fn, d
+				}
+			}
+		}
+	})
+	if dfn == nil {
+		panic(UnresolvedError{"deferred End emission in newStream"})
+	}
+	// the cell the deferred block tests
+	var cell *ssa.Alloc
+	for _, fv := range dfn.FreeVars {
+		if typeKey(deref(fv.Type())) == "error" {
+			for _, b := range p.freeVarBindings(fv) {
+				if al, ok := b.(*ssa.Alloc); ok {
+					cell = al
+				}
+			}
+		}
+	}
+	if cell == nil {
+		panic(UnresolvedError{"error variable captured by newStream's deferred End block"})
+	}
+	n := 0
+	for _, r := range returnsOf(ns) {
+		if !instrDominates(dins, r) {
+			continue
+		}
+		v := retVals(r)
+		if len(v) != 2 || isNilConst(v[1]) {
+			continue
+		}
+		n++
+		ok := false
+		if ld, isLd := v[1].(*ssa.UnOp); isLd && ld.X == ssa.Value(cell) {
+			ok = true
+		}
+		c.check(rule, "newStream:failing-return-yields-the-tested-variable", ok, "a failing return after Begin yields "+p.lpath(v[1])+"; the deferred End block tests "+p.locPath(cell)+" — if they differ (shadowing) the block sees nil and no End is emitted", p.ipos(r))
+	}
+	c.floor(rule, "failing returns of newStream after Begin", n, 1)
+}
+
+// ruleWebsocketRejectsOnlyNonEnvelopes (C19.2): every error return of the WebSocket read is caused by a failed read, a
+// non-binary frame or an undecodable payload; anything else rejects a frame that may be a well-formed envelope
+// (the all-default envelope encodes to zero bytes).
+func ruleWebsocketRejectsOnlyNonEnvelopes(c *Ctx, rule string) {
+	p := c.p
+	wr := p.MustFn("goat.goatOverWebsocket.Read")
+	var readErr, decErr string
+	for _, ci := range p.callsTo(wr, "websocket.Conn).Read", false) {
+		readErr = p.lpath(ci.(*ssa.Call)) + "#2"
+	}
+	for _, ci := range p.callsTo(wr, "proto.Unmarshal", false) {
+		decErr = p.lpath(ci.(*ssa.Call))
+	}
+	n := 0
+	for _, r := range returnsOf(wr) {
+		v := retVals(r)
+		if !isNilConst(v[0]) {
+			continue
+		}
+		n++
+		fs := p.Facts(r)
+		why := ""
+		switch {
+		case readErr != "" && fs.NonNil(readErr):
+			why = "read error"
+		case decErr != "" && fs.NonNil(decErr):
+			why = "undecodable payload"
+		default:
+			for k := range fs {
+				if strings.HasPrefix(k, "neq(const:2,") {
+					why = "non-binary frame"
+				}
+			}
+		}
+		c.check(rule, "websocket.Read:rejects:"+strings.ReplaceAll(why, " ", "-"), why != "", "an error is returned only for a failed read, a non-binary frame or an undecodable payload; this return is reached under "+fs.String(), p.ipos(r))
+	}
+	c.floor(rule, "rejecting returns of websocket Read", n, 3)
+}
